@@ -1,7 +1,7 @@
 (* C13 — property theorems only: each closed by [exact] and followed by Print Assumptions. *)
 From Coq Require Import List ZArith Bool.
 From AV Require Import Model.C13_Num Model.C13_Decimal Model.C13_Cast Model.C13_Text.
-From AV Require Import Proofs.C13_Col Proofs.C13_Pow Proofs.C13_Rescale Proofs.C13_Int Proofs.C13_TextInt Proofs.C13_TextDec Proofs.C13_TextDecM Proofs.C13_DecInt.
+From AV Require Import Proofs.C13_Col Proofs.C13_Pow Proofs.C13_Rescale Proofs.C13_Int Proofs.C13_TextInt Proofs.C13_TextDec Proofs.C13_TextDecM Proofs.C13_DecInt Proofs.C13_Columns Proofs.C13_TextIntEq.
 Import ListNotations.
 Local Open Scope Z_scope.
 
@@ -42,6 +42,36 @@ Theorem cast_model_refines_spec : forall a b f conv safe c,
   end.
 Proof. exact C13_Col.cast_model_refines_spec. Qed.
 Print Assumptions cast_model_refines_spec.
+
+(* integer -> integer on a whole physical column, either CastOptions.safe value, any widths: the
+   modelled cast IS the specification cast of the logical column (strict: error iff some valid value
+   is outside the target range; safe: nulls exactly there; nulls stay null; never a panic) *)
+Theorem int_column_cast : forall b1 s1 b2 s2 safe c,
+  (forall v, In (true, v) c -> fits b1 s1 v = true) ->
+  match cast_model (TInt b1 s1) (TInt b2 s2) safe c with
+  | ROk r => spec_cast (num_cast b2 s2) safe (logical c) = Some (logical r)
+  | RErr => spec_cast (num_cast b2 s2) safe (logical c) = None
+  | RPanic => False
+  end.
+Proof. exact int_column_cast_spec. Qed.
+Print Assumptions int_column_cast.
+
+(* decimal -> decimal on a whole physical column, either mode, every width / precision / scale pair
+   within the stated arithmetic limits: provided every RAW slot (the ones under nulls too — the fast
+   path visits them) is within the declared input precision, the modelled cast is the specification
+   cast: rescale with round half away from zero, null / error beyond the output precision *)
+Theorem decimal_column_cast : forall w1 p1 s1 w2 p2 s2 safe c,
+  In w1 [32; 64; 128; 256] -> In w2 [32; 64; 128; 256] ->
+  dec_type_ok w1 p1 s1 = true -> dec_type_ok w2 p2 s2 = true ->
+  - 127 <= s2 - s1 <= 127 -> p1 + (s2 - s1) <= 127 -> (s1 <= s2 -> s2 - s1 <= dec_maxp w2) ->
+  (forall b v, In (b, v) c -> Z.abs v < 10 ^ p1) ->
+  match cast_model (TDec w1 p1 s1) (TDec w2 p2 s2) safe c with
+  | ROk r => spec_cast (dec_dec_spec s1 p2 s2) safe (logical c) = Some (logical r)
+  | RErr => spec_cast (dec_dec_spec s1 p2 s2) safe (logical c) = None
+  | RPanic => False
+  end.
+Proof. exact decimal_column_cast_spec. Qed.
+Print Assumptions decimal_column_cast.
 
 (* integer -> integer, all widths and signs (abstract widths): the value is kept iff it lies in
    the target range, otherwise null / error *)
@@ -173,6 +203,14 @@ Theorem int_text_roundtrip : forall bits sg v, 1 <= bits -> fits bits sg v = tru
   parse_int bits sg (fmt_int v) = Some v.
 Proof. exact int_text_roundtrip_M. Qed.
 Print Assumptions int_text_roundtrip.
+
+(* M = S for integer parsing, on EVERY byte string: the parser of arrow-cast (conditional trimming,
+   two atoi attempts, checked accumulation that keeps consuming digits after an overflow) accepts
+   exactly  blanks* [+-]? digit+ blanks*  with the value in the range of the type, and returns it *)
+Theorem int_parse_model_is_spec : forall bits sg s, 1 <= bits ->
+  parse_int bits sg s = parse_int_spec bits sg s.
+Proof. exact parse_int_eq_spec. Qed.
+Print Assumptions int_parse_model_is_spec.
 
 (* decimal text, the real parser: for every decimal type (w, p, s) with a non-negative scale and every
    value within the declared precision, the Utf8 -> Decimal cast (parse_string_to_decimal_native:
